@@ -2,6 +2,7 @@ package props
 
 import (
 	"bytes"
+	"compress/gzip"
 	"context"
 	"encoding/json"
 	"errors"
@@ -294,11 +295,21 @@ func (rt *c11RT) RoundTrip(req *http.Request) (*http.Response, error) {
 		rt.mu.Unlock()
 	}
 	mk := func(status int, b []byte) *http.Response {
+		hdr := http.Header{"Content-Type": {"application/json"}}
+		if strings.Contains(req.Header.Get("Accept-Encoding"), "gzip") {
+			// a caller that asks for gzip by itself gets gzip (net/http only decodes what it negotiated itself)
+			var zb bytes.Buffer
+			zw := gzip.NewWriter(&zb)
+			zw.Write(b)
+			zw.Close()
+			b = zb.Bytes()
+			hdr.Set("Content-Encoding", "gzip")
+		}
 		tb := &c11Body{Reader: bytes.NewReader(b), size: len(b), status: status}
 		rt.mu.Lock()
 		rt.bodies = append(rt.bodies, tb)
 		rt.mu.Unlock()
-		return &http.Response{StatusCode: status, Status: fmt.Sprint(status), Proto: "HTTP/1.1", ProtoMajor: 1, ProtoMinor: 1, Header: http.Header{"Content-Type": {"application/json"}}, Body: tb, Request: req}
+		return &http.Response{StatusCode: status, Status: fmt.Sprint(status), Proto: "HTTP/1.1", ProtoMajor: 1, ProtoMinor: 1, Header: hdr, Body: tb, Request: req}
 	}
 	var els []map[string]any
 	for _, t := range call.tokens {
@@ -384,6 +395,11 @@ func (p c11) Exec(c *run.Ctx, idx int, raw json.RawMessage) []run.Result {
 		vars := map[string]interface{}{}
 		if isFile[i] {
 			vars["f"] = &requests.Upload{File: memFile{strings.NewReader(fmt.Sprintf("file-%d", i))}, FileName: fmt.Sprintf("f%d.txt", i)}
+			if (sp.Jitter+uint64(i))%2 == 0 {
+				// a request may carry several files: it is still one request
+				vars["g"] = &requests.Upload{File: memFile{strings.NewReader(fmt.Sprintf("second-%d", i))}, FileName: fmt.Sprintf("g%d.txt", i)}
+				vars["h"] = []interface{}{&requests.Upload{File: memFile{strings.NewReader(fmt.Sprintf("third-%d", i))}, FileName: fmt.Sprintf("h%d.txt", i)}}
+			}
 		}
 		inputs[i] = &requests.Request{Query: fmt.Sprintf(`{ echo(t: "tok-%d") }`, tokOf(i)), Variables: vars}
 	}
